@@ -12,9 +12,17 @@ import (
 // constructor failed and recorded an error) or a node of any expression kind.
 func vExprSlot(p *parser) *ast.Node {
 	pos := plToken.LnColPos{Pos: 1, Ln: 1, Col: 2}
-	switch verifnd.Choice(9) {
+	switch verifnd.Choice(12) {
 	case 0:
 		return nil
+	case 9:
+		// constructors that do not inspect their operands build nodes with a nil child when an
+		// operand failed to parse (its error is recorded): such nodes reach later constructors
+		return ast.WrapInExpr(&ast.InExpr{Op: "in", LHS: ast.WrapIdentifier(&ast.Identifier{Name: "x", Start: pos}), RHS: nil})
+	case 10:
+		return ast.WrapInExpr(&ast.InExpr{Op: "in", LHS: nil, RHS: ast.WrapIdentifier(&ast.Identifier{Name: "y", Start: pos})})
+	case 11:
+		return ast.WrapParenExpr(&ast.ParenExpr{Param: nil})
 	case 1:
 		return ast.WrapIdentifier(&ast.Identifier{Name: "a", Start: pos})
 	case 2:
